@@ -65,6 +65,8 @@ func drawC19(t *rapid.T) C19Case {
 			s.Rules[i].Action = "{ " + tx + " }"
 		}
 	}
+	// user text with characters that are special to formatting layers
+	s.Epilogue += rapid.SampledFrom([]string{"", "\n// 100% done\nvar pct = 7 % 3\n", "\nvar format = \"%s %d %v %%\"\n", "\n// {{.CodeLast}} {{end}} `backquote`\n"}).Draw(t, "epiextra")
 	epi := s.Epilogue
 	cs := C19Case{Epilogue: epi}
 	cs.Old = []byte(rapid.StringN(1, 200, 400).Draw(t, "old"))
